@@ -15,6 +15,7 @@ struct Contained {
 
 typedef void (*ContainedFn)(void *);
 void containInstall();
+void containThreadExit();  // releases the calling thread's alternate signal stack
 // Runs f(arg).  wallLimitSec > 0 arms a wall-clock watchdog (single-threaded
 // modes only; verdicts from it are confirmed by re-execution before use).
 Contained runContained(ContainedFn f, void *arg, double wallLimitSec);
